@@ -549,6 +549,38 @@ pub fn analyse(case: &SmastCase, run: &MastRun) -> (Option<Violation>, bool, u64
         }
     }
 
+    // S7b: after the configured silence on an idle, connected channel the keep-alive request is actually written
+    if violation.is_none() && connected && running.is_none() {
+        for a in &case.cfg.assocs {
+            let Some(ka) = a.keep_alive_ms else { continue };
+            let since = last_link_activity.get(&a.address).copied().unwrap_or(0);
+            let due = since + ka;
+            if due + 1000 >= run.end_ms {
+                continue;
+            }
+            // anything else that occupied the channel after it became due postpones it legitimately
+            let mut busy = false;
+            let mut asked = false;
+            for (_, h) in &hist {
+                match h {
+                    H::TaskStart { t, .. } | H::TaskSuccess { t, .. } | H::TaskFail { t, .. } | H::Client { t, .. } | H::Closed { t, .. } if *t + 1 >= due => busy = true,
+                    H::LinkRx { t, ctrl, dest, .. } if ctrl & 0x4F == 0x49 && *dest == a.address && t.saturating_sub(case.latency.0) + 1 >= due => asked = true,
+                    _ => {}
+                }
+            }
+            if !busy && !asked {
+                bump("probe.keep_alive_liveness_checked", 1);
+                fail!(
+                    "C19/keep-alive-never-sent",
+                    "",
+                    format!("nothing has been heard from {} since {} ms (keep-alive timeout {} ms), the channel was idle and connected, yet no link status request was written by {} ms", a.address, since, ka, run.end_ms)
+                );
+            } else if asked {
+                bump("probe.keep_alive_liveness_checked", 1);
+            }
+        }
+    }
+
     // S8: no busy waiting - the master task is polled a bounded number of times per thing that happened
     let events = hist.len() as u64 + run.master_rx.len() as u64 + 1;
     bump("probe.master_polls_per_event_x100", run.master_polls * 100 / events);
